@@ -8,7 +8,7 @@ import math
 import z3
 import numpy as np
 
-from .common import Check, run_check, prove_paths, close
+from .common import Check, run_check, prove_paths, close, laplace_load, ExpectedRefusal
 import symx
 from symx import SR, SC, core, npf
 from symx.core import eq_term, close_term
@@ -108,7 +108,7 @@ def circuits(ck, sh, mm):
             a = [SR.var('a%d' % i) for i in range(deg + 1)]
             b = [SR.var('b%d' % i) for i in range(deg + 1)]
             with symx.object_arrays():
-                z = M.Laplace_Load(a=a, b=b).impedance(f)
+                z = laplace_load(M, a, b).impedance(f)
             s = s_of(f)
             num = den = SC(0.0, 0.0)
             sk = 1.0
@@ -129,7 +129,7 @@ def circuits(ck, sh, mm):
         # z == num/den  <=>  z*den == num   (den != 0 on the path: the code divided by it)
         prove_paths(ck, 'laplace-deg%d' % deg, fn,
                     lambda o: [('Z=sum b s^k / sum a s^k', eq_term(o['z'] * o['den'], o['num']))],
-                    replay, expect_exc=(ZeroDivisionError,))
+                    replay, expect_exc=(ZeroDivisionError, ExpectedRefusal))
 
 
 # ---------------------------------------------------------------------------------
